@@ -19,7 +19,8 @@ func init() {
 		Rule: "a composition tree over Just / New(effect) / FlatMap(f) of depth <= 4 generated from the scenario tape (every effect and every f logs id + thread); the tree is only built (log must stay empty), " +
 			"Eval'ed 0..3 times, and Subscribed from 1..3 threads with each nil/non-nil combination of ObserveOn(h1)/SubscribeOn(h2) and with a Subscription without OnNext; a reference interpreter of the tree gives the " +
 			"expected value and effect order; the three monad laws are checked as behavioural equalities on generated instances; non-trivial = a handler was involved with >=2 subscribers or >=2 evaluations of a tree with >=2 effects; " +
-			"distinct = distinct context-switch signature",
+			"distinct = distinct context-switch signature" +
+			" Probes: Eval with closed handlers configured, handler replacement after both handlers were the same, Just of a MonadIO, method-style constructors, re-configuration while subscriptions are in flight.",
 		Real:        []string{"fpgo.MonadIODef (Just, New, FlatMap, Eval, Subscribe, ObserveOn, SubscribeOn)", "fpgo.HandlerDef goroutines"},
 		Stub:        []string{"goroutine scheduler", "effects / FlatMap functions (harness closures)"},
 		Assumptions: []string{"laziness and the laws do not depend on the schedule; they are checked because the reference interpreter is needed anyway for routing and exactly-once under concurrent subscribers"},
